@@ -1,0 +1,10 @@
+//go:build verif
+
+package transforms32
+
+// The portable kernels next to the vector ones, for side-by-side comparison by the verification harness.
+var (
+	VerifPortableYCbCrToGray = yCbCrToGrayAlt
+	VerifPortableDCT64       = forwardDCT64
+	VerifPortableDCT256      = forwardDCT256
+)
